@@ -123,8 +123,34 @@ def cmd_run(names, tier):
     return 0
 
 
+def cmd_summary():
+    rows = []
+    for name in sorted(os.listdir(SEEDED)):
+        d = os.path.join(SEEDED, name)
+        if not os.path.exists(os.path.join(d, "meta.json")):
+            continue
+        m = json.load(open(os.path.join(d, "meta.json")))
+        r = json.load(open(os.path.join(d, "result.json"))) if os.path.exists(os.path.join(d, "result.json")) else {}
+        hist = m.get("history", "")
+        rows.append("| %s | %s | %s | %s | %s | %s |" % (
+            name, m["property"], str(m.get("summary", "")).replace("|", "/").replace("\n", " ")[:230],
+            str(m.get("needs", "")).replace("|", "/").replace("\n", " ")[:200],
+            ("caught (%s): %s" % (r.get("tier"), ", ".join(r.get("clauses", []))[:110])) if r.get("detected") else ("MISSED" if r else "not run"),
+            hist))
+    out = ["# Seeded property-breaking changes (produced by independent sub-agents that saw only the property text)",
+           "", "Each directory holds `patch.diff`, `demo.py` (passes on the clean tree, fails with the patch; confirmed by",
+           "`tools/seeded.py import`), `meta.json` and `result.json` (outcome of `tools/seeded.py run`: the property's quick check",
+           "run against a scratch worktree with the patch applied).", "",
+           "| change | property | what was changed | what it needs to manifest | outcome of the check | history |", "|---|---|---|---|---|---|"] + rows
+    open(os.path.join(SEEDED, "SUMMARY.md"), "w").write("\n".join(out) + "\n")
+    print("\n".join(out[-len(rows):]))
+
+
 if __name__ == "__main__":
     a = sys.argv[1:]
+    if a and a[0] == "summary":
+        cmd_summary()
+        sys.exit(0)
     if a and a[0] == "import":
         sys.exit(cmd_import(a[1], a[2]))
     if a and a[0] == "run":
